@@ -13,6 +13,7 @@ import (
 type vhImporter struct {
 	events []ImportResult
 	since  time.Time
+	slow   bool // the listing takes longer than the safety margin of the cursor
 }
 
 func (i *vhImporter) Init(ctx context.Context, repo *cache.RepoCache, conf Configuration) error {
@@ -24,6 +25,9 @@ func (i *vhImporter) ImportAll(ctx context.Context, repo *cache.RepoCache, since
 	out := make(chan ImportResult)
 	go func() {
 		defer close(out)
+		if i.slow {
+			time.Sleep(5200 * time.Millisecond)
+		}
 		for _, e := range i.events {
 			out <- e
 		}
@@ -54,7 +58,14 @@ func VH_C16_cursor() {
 	if hadCursor {
 		_ = r.LocalConfig().StoreTimestamp(key, old)
 	}
+	// a long import (only for clean first/next rounds without events, to keep the native
+	// validation short): something may change on the tracker while it runs
+	if n == 0 && rt.Choose(2) == 1 {
+		imp.slow = true
+		rt.Cover("slow-import")
+	}
 	b := &Bridge{Name: "b", repo: rc, importer: imp, conf: Configuration{"target": "x"}, initImportDone: true}
+	started := time.Now()
 	out, err := b.ImportAll(context.Background())
 	rt.Assert(err == nil, "import-starts")
 	if err != nil {
@@ -84,6 +95,9 @@ func VH_C16_cursor() {
 		rt.Assert(terr == nil, "cursor-stored-after-clean-round")
 		if terr == nil {
 			rt.Assert(ts.After(old), "cursor-advanced")
+			// whatever changed on the tracker after the round started must be listed by
+			// the next round: the cursor is not later than the start of this one
+			rt.Assert(!ts.After(started), "cursor-not-later-than-the-start-of-the-round")
 		}
 	}
 	_ = fmt.Sprint
